@@ -397,7 +397,7 @@ def plan(tier, seed):
             S.append({"kind": "asyncio", "cfg": {"senders": 3, "sends": 3, "yields": 2, "nested": True}, "shard": i, "nshards": 4})
         for i in range(4):
             S.append({"kind": "asyncio", "cfg": {"senders": 2, "sends": 2, "yields": 2, "nested": True, "activate_first": False}, "shard": i, "nshards": 4})
-        budget = 1500
+        budget = 500
     for s in S:
         s["budget_s"] = budget
     return S
